@@ -30,6 +30,11 @@ class InjectedIndexError(IndexError):
     """an IndexError raised by user code (LookupError family, often special-cased)"""
 
 
+class InjectedTimeout(TimeoutError):
+    """a TimeoutError raised by user code (it is also what timed waits of
+    concurrent.futures and queue-like helpers raise)"""
+
+
 class InjectedBase(BaseException):
     """not an Exception subclass"""
 
@@ -44,6 +49,7 @@ EXC_KINDS = {
     'value': InjectedError,
     'key': InjectedKeyError,
     'index': InjectedIndexError,
+    'timeout': InjectedTimeout,
     'base': InjectedBase,
 }
 EXC_NAME = {v: k for k, v in EXC_KINDS.items()}
